@@ -35,7 +35,9 @@ RULE = (
     "CPCCA, MCA, CCA, RDA and Complex*; CPCCARotator, MCARotator, ComplexCPCCARotator, ComplexMCARotator; multi.CCA). "
     "(S) structure sweep, one pinned configuration per class: container {DataArray, Dataset, list} x sample dims {1, 2} x sample labels {ascending, unsorted} "
     "x mask {none, one sample all-NaN, one feature all-NaN, both} x preprocessing {default, center off (single-set), standardize+weights(+coslat) (single- and cross-set)} "
-    "(quick: the sub-product stated in `_structure_cases`). "
+    "(quick: ascending labels except two plain cases; masks {none, sample, both} (+feature on the plain DataArray); center-off and standardize+weights on unmasked one-sample-dim inputs; "
+    "rotators container x mask {none, sample} (+ two sample dims with a missing sample on the DataArray); classes that only fix alpha or are the complex twin of a primary class "
+    "(CCA, RDA, ComplexMCA/CCA/RDA, the three Complex rotators): container x mask {none, sample} on one sample dim). "
     "(K) configuration sweep on the plain structure: single-set n_modes 1..5 x spectrum x solver; SparsePCA alpha x n_modes; POP n_pca_modes x n_modes; "
     "rotators k in 2..4 x power 1..3 x spectrum {geometric, near_equal_var}; CPCCA alpha in {0,.25,.5,1}^2 x PCA {off, 3, all} x n_modes; named classes x PCA; "
     "cross rotators alpha^2 x PCA x k x power x spectrum (quick: alpha in {0,.5,1}^2 x PCA {off,3} at k=3, power 2, plus power {1,3} on three whitening pairs); multi.CCA views {2,3} x pca x c x n_modes. "
@@ -45,7 +47,7 @@ RULE = (
 )
 ASSUMPTIONS = [
     "the numeric catalogue (fixed spectra/shapes, orthogonal factors drawn from VERIF_SEED) stands for 'all inputs'",
-    "n_modes never exceeds the numeric rank of the (reduced) data: a mode of zero variance has no normalised score (0/0) and is outside the quantifier",
+    "n_modes never exceeds the numeric rank of the (reduced) data and SparsePCA's penalty (alpha <= 1e-2) leaves every component non-zero: a mode of zero variance has no normalised score (0/0) and is outside the quantifier",
     "alpha < 1 without PCA is enumerated only on fields with non-singular covariance (features <= valid samples - 1), as in C09",
     "cross-set inputs with missing samples have them at the same sample labels in X and Y (differing positions are C06's subject)",
     "complex input is not combined with dask (documented refusal, DESIGN 3.4); multi.CCA offers neither compute=False provenance nor serialisation",
@@ -187,7 +189,7 @@ def _structure_cases(tier):
                                     continue
                                 if labels == "unsorted" and not (container == "DataArray" and sdims == 1 and flags == "default" and mask in ("none", "sample")):
                                     continue
-                                if mask == "feature":
+                                if mask == "feature" and (rot or model in SECONDARY or not (container == "DataArray" and sdims == 1 and flags == "default" and labels == "ascending")):
                                     continue
                                 if flags == "nocenter" and not (container == "DataArray" and sdims == 1 and mask == "none"):
                                     continue
